@@ -490,6 +490,21 @@ class RecordingSubscriber(BaseSubscriber):
                     future.result()
                 except Exception:
                     pass
+            elif act == 'cancel_sibling':
+                # fail-fast callback: cancel the other transfers of this manager (some may not have started yet)
+                for sx in list(getattr(self.w, 'xfers', ()) or ()):
+                    if sx.label != self.label and sx.future is not None:
+                        sx.future.cancel()
+            elif act == 'submit_new':
+                # chained transfer: a fresh transfer on the same manager, started from inside the callback
+                mgr = getattr(self.w, 'mgr', None)
+                if mgr is not None:
+                    key = f'chained-{self.label}-{self.name}'
+                    try:
+                        f = mgr.upload(io.BytesIO(b'chained-data'), 'bkt', key)
+                        self.w.chained.append((key, f, None))
+                    except BaseException as e:  # noqa
+                        self.w.chained.append((key, None, e))
             elif act == 'result_other_thread':
                 # another thread asks for the result while this callback runs and the callback waits for it (a hand-over to a
                 # worker): the answer must come without waiting for the callback to return.  No wall-clock verdict: the helper either
